@@ -26,6 +26,8 @@ func checkC03(c *Ctx) {
 	c.Expect("C03-R7", 1)
 	c.Rule("C03-R8", "the key matcher holds a sequence back while it may still complete: parseFunctionKey is all-or-nothing, consumes exactly the matched sequence, and its 'partial' answer over the key table only accumulates (a table entry of which the input is a proper prefix always answers partial)")
 	c.Expect("C03-R8", 2)
+	c.Rule("C03-R9", "a key that is a proper prefix of other keys (a lone control byte on wy50/wy60, a lone ESC everywhere) is delivered when the timer expires: the timer is re-armed after Stop with the tick drained, for any leftover, whatever its first byte")
+	c.Expect("C03-R9", 4)
 	c.Rule("C03-R6", "the pending-Alt flag survives between scans: it is a field of the screen, set only where the collect loop consumes a lone ESC, and tested-and-cleared by the rune and function-key parsers and the expiry path")
 	c.Expect("C03-R6", 3)
 	c.Expect("C03-R1", 3)
@@ -187,6 +189,7 @@ func checkC03(c *Ctx) {
 	c03AltPrefix(c, p)
 	recogniserConflicts(c, p, db, "C03-R3")
 	checkChunkOwnership(c, p, "C03-R7")
+	checkTimerDiscipline(c, p, "C03-R9")
 	for _, pi := range inputParsers(p) {
 		if pi.fn.Name() == "parseFunctionKey" {
 			c.asRule("C02-R9", "C03-R8", func() { c02Consumption(c, p, pi) })
